@@ -19,6 +19,11 @@ def _factor(unit):
     if f is None:
         from efootprint.constants.units import u
         q = u.Quantity(1.0, unit).to_base_units()
+        # pint defines the bit as a dimensionless base unit (1 bit == 1): fold it, so that "bit / second" and
+        # "1 / second" are one dimension, as they are for the library
+        exp = dict(q.units._units).get("bit")
+        if exp:
+            q = q.to(q.units / (u.bit ** exp))
         f = (float(q.magnitude), str(q.units))
         _FACTORS[key] = f
     return f
